@@ -94,7 +94,7 @@ def run_case(case, rec):
             for name, n in outs[hs]['calls'].items():
                 rec.call(name.split(' ')[-1], n)
             for x in outs[hs]['extra']:
-                key = 'repeat-differs' if x.startswith('REPEAT') else 'write-in-readonly-call'
+                key = 'repeat-differs' if x.startswith('REPEAT') else 'call-order-dependent' if x.startswith('ORDER') else 'write-in-readonly-call'
                 rec.violation(key, f'PYTHONHASHSEED={hs}: {x}')
             rec.done([case['seed'], hs], nontrivial=len(outs[hs]['lines']) >= 500,
                      sample={'hashseed': hs, 'lines': len(outs[hs]['lines']), 'first_lines': outs[hs]['lines'][:3]})
